@@ -441,3 +441,113 @@ func Simulate(sc *Scenario) *Sim {
 	}
 	return s
 }
+
+// ---- end state of a sequential program (any refresh mode) -----------------
+
+// EndBar is the state a bar must have reached when Wait returns.
+type EndBar struct {
+	Added     bool
+	Completed bool
+	Aborted   bool
+	Drop      bool // aborted with drop
+	ByCancel  bool // ended only by cancel / Shutdown
+}
+
+// EndState walks a sequential program (no par blocks) with the bar model and
+// returns how every bar ends: the first terminal event decides (a completed bar
+// stays completed, an aborted one stays aborted), the epilogue finishes what is
+// left, a cancel/shutdown step aborts what is unfinished. ok=false for programs
+// with concurrent blocks.
+func EndState(sc *Scenario) (end []EndBar, cancelled bool, ok bool) {
+	ms := make([]*MBar, len(sc.Bars))
+	end = make([]EndBar, len(sc.Bars))
+	for i := range sc.Steps {
+		st := &sc.Steps[i]
+		if st.Op == "par" || len(st.Par) > 0 {
+			return nil, false, false
+		}
+		if st.Op == "cancel" || st.Op == "shutdown" {
+			cancelled = true
+			break
+		}
+		if st.Bar < 0 || st.Bar >= len(ms) {
+			continue
+		}
+		if st.Op == "add" {
+			if ms[st.Bar] == nil {
+				ms[st.Bar] = NewMBar(sc.Bars[st.Bar].Total)
+				end[st.Bar].Added = true
+			}
+			continue
+		}
+		if m := ms[st.Bar]; m != nil && !m.Terminal() {
+			if st.Op == "incr" && !m.IncrOK(st.N) {
+				return nil, false, false
+			}
+			m.Apply(st)
+		}
+	}
+	for i, m := range ms {
+		if m == nil {
+			continue
+		}
+		if !m.Terminal() {
+			if cancelled {
+				m.Abrt = true
+				end[i].ByCancel = true
+			} else {
+				how := sc.Epilogue
+				if how == "mixed" {
+					how = "complete"
+					if i%2 == 1 {
+						how = "abort"
+					}
+				}
+				switch how {
+				case "abort":
+					m.Abort(i%3 == 0)
+				case "none":
+					return nil, false, false
+				default:
+					// SetTotal(-1, true) then SetCurrent(max): completes whatever the trigger state
+					if !m.Trig {
+						m.Total = m.Cur
+					}
+					m.Trig, m.Cur = true, m.Total
+				}
+			}
+		}
+		end[i].Completed, end[i].Aborted, end[i].Drop = m.Completed(), m.Abrt, m.Abrt && m.Drop
+	}
+	return end, cancelled, true
+}
+
+// FinalContainer returns, for a run that ended by a plain Wait (no cancel),
+// which bars must be in the last frame: added, displayed at some point (not
+// parked behind a bar that was itself never displayed), and not replaced by a
+// successor, popped out or removed.
+func FinalContainer(sc *Scenario, end []EndBar) map[int]bool {
+	succ := map[int]int{} // predecessor -> successor (the last one added wins; generators avoid two)
+	for i, b := range sc.Bars {
+		if end[i].Added && b.QueueAfter >= 0 && b.QueueAfter < len(sc.Bars) && end[b.QueueAfter].Added {
+			succ[b.QueueAfter] = i
+		}
+	}
+	in := map[int]bool{}
+	for i, b := range sc.Bars {
+		if !end[i].Added {
+			continue
+		}
+		if _, has := succ[i]; has {
+			continue // replaced by its successor
+		}
+		if sc.Cfg.Pop && !b.NoPop {
+			continue // popped out
+		}
+		if (end[i].Completed && b.RmOnComplete) || end[i].Drop {
+			continue
+		}
+		in[i] = true
+	}
+	return in
+}
